@@ -56,143 +56,137 @@ def run(cfg):
         R.instance(rid, c, loc)
         if not ok:
             R.violation(rid, c, loc, msg)
-    # ---- TimePeriod(int32)
-    ctors = [f for f in lib.funcs.get('ace_time::TimePeriod::TimePeriod', []) if len(f.params) == 1 and f.params[0][1] == 'int']
-    if not ctors:
-        raise AnalysisError('anchor vanished: TimePeriod(int32_t)')
-    f = ctors[0]
-    S = Poly.atom(('sym', f.params[0][0]))
-    s = SymExec(fold_global=lib.global_value).run(f.name, f.body, {})
-    neg = cmp_formula('<', S, Poly.const(0))
-    ok, why = len(s.paths) == 2, 'expected two paths (negative / non-negative)'
-    for g, kind, res, eff in s.paths:
-        e = {t: _P(v) for t, v in eff if t != 'call'}
-        isneg, _ = formulas_equivalent(g, neg)
-        ispos, _ = formulas_equivalent(g, f_not(neg))
-        if not (isneg or ispos):
-            ok, why = False, 'path guard %s is not the sign test of the argument' % formula_str(g)
-            break
-        mag = -S if isneg else S
-        sec = Poly.atom(('tmod', mag.key(), Poly.const(60).key()))
-        q1 = Poly.atom(('tdiv', mag.key(), Poly.const(60).key()))
-        mi = Poly.atom(('tmod', q1.key(), Poly.const(60).key()))
-        ho = Poly.atom(('tdiv', q1.key(), Poly.const(60).key()))
-        want = {'this.mSign': Poly.const(-1 if isneg else 1), 'this.mSecond': sec, 'this.mMinute': mi, 'this.mHour': ho}
-        for k, v in want.items():
-            if e.get(k) != v:
-                ok, why = False, '%s is %r on the %s path, expected %r' % (k, e.get(k), 'negative' if isneg else 'non-negative', v)
-    ob('R1', 'ace_time::TimePeriod::TimePeriod(int32_t)', f.loc, ok, why)
-    # ---- toSeconds
-    f = lib.fn('ace_time::TimePeriod::toSeconds')
-    s = SymExec(fold_global=lib.global_value).run(f.name, f.body, {})
-    H, M, Sx, SG = (Poly.atom(('sym', 'this.' + n)) for n in ('mHour', 'mMinute', 'mSecond', 'mSign'))
-    mag = H * Poly.const(3600) + M * Poly.const(60) + Sx
-    ok, why = False, 'toSeconds() is not sign * ((h*60 + m)*60 + s)'
-    rets = [p for p in s.paths if p[1] == 'return']
-    if len(rets) == 1:
-        a = _atom(_P(rets[0][2]))
-        if a and a[0] == 'cond':
-            c, x, y = a[1], _P(a[2]), _P(a[3])
-            # the condition is a test of the sign field (mSign is -1 or +1: ">= 0" and "> 0" select the same arm, so do
-            # "< 0" and "<= 0"); the magnitude goes to the non-negative arm and its negation to the other
-            ca = _atom(_P(c))
-            ok = False
-            if ca is not None and ca[0] == 'cmp':
-                cf_ = cmp_formula(ca[1], _P(ca[2]), _P(ca[3]))
-                pos = any(formulas_equivalent(cf_, cmp_formula(op, SG, Poly.const(0)))[0] for op in ('>=', '>'))
-                negt = any(formulas_equivalent(cf_, cmp_formula(op, SG, Poly.const(0)))[0] for op in ('<', '<='))
-                ok = (pos and x == mag and y == -mag) or (negt and x == -mag and y == mag)
-            why = 'toSeconds() returns %s' % poly_key_str(rets[0][2])[:200]
-    elif len(rets) == 2:
-        ok = True
-        for g, kind, res, eff in rets:
-            ispos = any(formulas_equivalent(g, cmp_formula(op, SG, Poly.const(0)))[0] for op in ('>=', '>'))
-            isneg = any(formulas_equivalent(g, cmp_formula(op, SG, Poly.const(0)))[0] for op in ('<', '<='))
-            ok = ok and ((ispos and _P(res) == mag) or (isneg and _P(res) == -mag))
-    ob('R1', f.name, f.loc, ok, why)
-    # ---- compareTo
-    f = lib.fn('ace_time::TimePeriod::compareTo')
-    s = _sx(lib).run(f.name, f.body, {})
-    that = f.params[0][0]
-    A = Poly.atom(('fn', 'ace_time::TimePeriod::toSeconds', (Poly.atom(('sym', 'this')).key(),)))
-    B = Poly.atom(('fn', 'ace_time::TimePeriod::toSeconds', (Poly.atom(('sym', that)).key(),)))
-    ok, why, n = True, '', 0
-    from .gnf import _split_base
-    base, sgn, _c = _split_base(A - B)
-    for val in valuations(s.guards()):
-        hits = s.outcome(val)
-        reg = val.regions.get(base.key())
-        if len(hits) != 1 or reg is None:
-            ok, why = False, 'compareTo does not order this->toSeconds() against that.toSeconds()'
-            break
-        n += 1
-        v = (reg[1] if reg[0] == 'pt' else (-1 if reg[2] is not None and reg[2] <= 0 else 1)) * sgn
-        want = -1 if v < 0 else 1 if v > 0 else 0
-        got = _P(hits[0][2]).const_value() if hits[0][2] is not None and _P(hits[0][2]).is_const() else None
-        if got != want:
-            ok, why = False, 'returns %r when this - that is %s' % (got, 'negative' if v < 0 else 'positive' if v > 0 else 'zero')
-            break
-    ob('R1', f.name, f.loc, ok and n >= 3, why or 'fewer than three orderings distinguished')
-    # (negate is decided with the other mutation helpers, by interpretation)
-    # isError / sign application present
-    ob('R1', 'ace_time::TimePeriod::fields', 'src/ace_time/TimePeriod.h',
-       {n for n, _t, _x in lib.fields('ace_time::TimePeriod')} == {'mHour', 'mMinute', 'mSecond', 'mSign'}, 'TimePeriod fields changed')
-    # ---- TimeOffset
-    f = lib.fn('ace_time::TimeOffset::forHourMinute')
-    s = _sx(lib, inline=('TimeOffset::forMinutes',)).run(f.name, f.body, {})
-    h, m = (Poly.atom(('sym', p)) for p, _ in f.params)
-    ok = bool(s.paths)
-    for g, kind, res, eff in s.paths:
-        a = _atom(_P(res)) if res is not None else None
-        if not (a and a[0] == 'init' and len(a[2]) == 1 and _P(a[2][0]) == h * Poly.const(60) + m):
-            ok = False          # every path, not just one of them
-    ob('R2', f.name, f.loc, ok, 'forHourMinute is not 60*hour + minute on every path')
-    f = lib.fn('ace_time::TimeOffset::toHourMinute')
-    sx = _sx(lib, inline=('TimeOffset::toMinutes',))
-    sx.out_params = {p for p, t in f.params if t and '&' in t}
-    s = sx.run(f.name, f.body, {})
-    mm = Poly.atom(('sym', 'this.mMinutes'))
-    ok = False
-    for g, kind, res, eff in s.paths:
-        e = {t: _P(v) for t, v in eff if t != 'call'}
-        ok = e.get(f.params[0][0]) == Poly.atom(('tdiv', mm.key(), Poly.const(60).key())) and \
-            e.get(f.params[1][0]) == Poly.atom(('tmod', mm.key(), Poly.const(60).key()))
-    ob('R2', f.name, f.loc, ok, 'toHourMinute is not (minutes / 60, minutes % 60)')
-    f = lib.fn('ace_time::TimeOffset::toSeconds')
-    s = _sx(lib, inline=('TimeOffset::toMinutes',)).run(f.name, f.body, {})
-    ok = False
-    for g, kind, res, eff in s.paths:
-        l = _P(res).linear_in() if res is not None else None
-        if l and len(l[0]) == 1 and l[1] == 0:
-            (t, k), = l[0].items()
-            ok = k == 60
-    ob('R2', f.name, f.loc, ok, 'toSeconds is not 60 * minutes')
-    f = lib.fn('ace_time::time_offset_mutation::increment15Minutes')
-    s = SymExec(fold_global=lib.global_value).run(f.name, f.body, {})
-    off = f.params[0][0]
-    cur = Poly.atom(('fn', 'ace_time::TimeOffset::toMinutes', (Poly.atom(('sym', off)).key(),)))
-    ok, why = len(s.paths) == 2, 'expected a step path and a wrap path'
-    for g, kind, res, eff in s.paths:
-        setv = None
-        for t, v in eff:
-            if t == 'call':
-                for a in _P(v).atoms():
-                    if a[0] == 'fn' and a[1].endswith('TimeOffset::setMinutes'):
-                        setv = _P(a[2][1])
-        wrapf = cmp_formula('>', cur + Poly.const(15), Poly.const(960))
-        isw, _ = formulas_equivalent(g, wrapf)
-        isn, _ = formulas_equivalent(g, f_not(wrapf))
-        if isw:
-            if setv != Poly.const(-960):
-                ok, why = False, 'wraps to %r, expected -960 (= -16:00)' % setv
-        elif isn:
-            if setv != cur + Poly.const(15):
-                ok, why = False, 'steps to %r, expected minutes + 15' % setv
-        else:
-            ok, why = False, 'wrap condition is %s, expected minutes + 15 > 960' % formula_str(g)
-    ob('R2', f.name, f.loc, ok, why)
+    value_rules(R, lib, ob)
     mutation_helpers(R, lib, ob)
     return R
+
+
+def value_rules(R, lib, ob):
+    """TimePeriod and TimeOffset, interpreted (E-SEQ, typed, every accessor and helper through its real body) on their value
+    ranges: the constructor from seconds splits |s| into hour / minute / second with the sign apart and toSeconds() gives s
+    back; compareTo orders by signed seconds; forHourMinute / toHourMinute / toSeconds / forMinutes agree with
+    minutes = 60 * hour + minute (C++ truncation for negative values); increment15Minutes steps by 15 and wraps above
+    +16:00 to -16:00.  How a function spells it - helpers, early returns, (a > b) - (a < b) - is immaterial."""
+    from .aeval import AEval, AObj, CxxModule, Raised, Ref, cxx_object
+    mod = CxxModule(lib, ['ace_time::', 'ace_common::'])
+
+    def call(f, args, recv=None):
+        return AEval(module=mod, typed=True, max_steps=20000).call_function(f.name, list(args), recv=recv, chosen=CxxModule._Fn(f))
+
+    def tdiv(a_, b_):
+        q_ = abs(a_) // abs(b_)
+        return q_ if (a_ >= 0) == (b_ >= 0) else -q_
+    # ---- TimePeriod(int32) and toSeconds
+    ctors = [f for f in lib.fns('ace_time::TimePeriod::TimePeriod') if len(f.params) == 1 and f.params[0][1] == 'int']
+    if not ctors:
+        raise AnalysisError('anchor vanished: TimePeriod(int32_t)')
+    cf = ctors[0]
+    ts = lib.fn('ace_time::TimePeriod::toSeconds')
+    ob('R1', 'ace_time::TimePeriod::fields', 'src/ace_time/TimePeriod.h',
+       {n for n, _t, _x in lib.fields('ace_time::TimePeriod')} == {'mHour', 'mMinute', 'mSecond', 'mSign'}, 'TimePeriod fields changed')
+    samples = sorted(set(list(range(-130, 131)) + [k * 3600 + d for k in (-255, -100, -24, -1, 1, 24, 100, 255) for d in (-1, 0, 1, 59, 60, 61, 3599)]
+                         + [k * 60 + d for k in (-61, -59, 59, 61) for d in (-1, 0, 1)]))
+    samples = [s_ for s_ in samples if abs(s_) <= 255 * 3600 + 3599]
+    bad_c = bad_t = None
+    objs = {}
+    try:
+        for s_ in samples:
+            o = cxx_object(lib, 'ace_time::TimePeriod')
+            call(cf, [s_], recv=o)
+            objs[s_] = o
+            m_ = abs(s_)
+            want = {'mHour': m_ // 3600, 'mMinute': m_ // 60 % 60, 'mSecond': m_ % 60}
+            got = {k_: o.attrs[k_] for k_ in want}
+            sg = o.attrs['mSign']
+            if (got != want or not ((sg < 0) if s_ < 0 else (sg > 0))) and bad_c is None:
+                bad_c = 'TimePeriod(%d) holds (hour %s, minute %s, second %s, sign %s), expected (%d, %d, %d) with a %s sign' % (
+                    s_, got['mHour'], got['mMinute'], got['mSecond'], sg, want['mHour'], want['mMinute'], want['mSecond'], 'negative' if s_ < 0 else 'positive')
+            back = call(ts, [], recv=o)
+            if back != s_ and bad_t is None:
+                bad_t = 'TimePeriod(%d).toSeconds() is %s' % (s_, back)
+    except Raised as x_:
+        bad_c = bad_c or 'interpretation raises %s' % x_.what
+    R.instance('R1', 'ace_time::TimePeriod::TimePeriod(int32_t)', cf.loc, '%d second counts interpreted' % len(samples))
+    if bad_c:
+        R.violation('R1', 'ace_time::TimePeriod::TimePeriod(int32_t)', cf.loc, bad_c)
+    R.instance('R1', ts.name, ts.loc, '%d second counts interpreted' % len(samples))
+    if bad_t and not bad_c:
+        R.violation('R1', ts.name, ts.loc, bad_t + ': toSeconds() is not sign * ((hour * 60 + minute) * 60 + second)')
+    # ---- compareTo
+    cmpf = lib.fn('ace_time::TimePeriod::compareTo')
+    keys = [s_ for s_ in (-90000, -3600, -61, -60, -1, 0, 1, 59, 60, 3599, 3600, 90000) if s_ in objs or True]
+    bad = None
+    n = 0
+    for x in keys:
+        for y in keys:
+            ox, oy = cxx_object(lib, 'ace_time::TimePeriod'), cxx_object(lib, 'ace_time::TimePeriod')
+            try:
+                call(cf, [x], recv=ox)
+                call(cf, [y], recv=oy)
+                got = call(cmpf, [oy], recv=ox)
+            except Raised as x_:
+                got = 'raises %s' % x_.what
+            n += 1
+            want = (x > y) - (x < y)
+            if got != want and bad is None:
+                bad = 'TimePeriod(%d).compareTo(TimePeriod(%d)) is %s, expected %d: compareTo does not order this->toSeconds() against that.toSeconds()' % (x, y, got, want)
+    R.instance('R1', cmpf.name, cmpf.loc, '%d pairs interpreted' % n)
+    if bad:
+        R.violation('R1', cmpf.name, cmpf.loc, bad)
+    # ---- TimeOffset
+    fhm = lib.fn('ace_time::TimeOffset::forHourMinute')
+    thm = lib.fn('ace_time::TimeOffset::toHourMinute')
+    tsec = lib.fn('ace_time::TimeOffset::toSeconds')
+    tmin = lib.fn('ace_time::TimeOffset::toMinutes')
+    bad_f = bad_h = bad_s = None
+    n = 0
+    for h in (-16, -12, -3, -1, 0, 1, 5, 14, 16):
+        for mi in (-59, -45, -30, -1, 0, 1, 15, 30, 45, 59):
+            try:
+                o = call(fhm, [h, mi])
+                minutes = call(tmin, [], recv=o)
+            except Raised as x_:
+                bad_f = bad_f or 'forHourMinute(%d, %d) raises %s' % (h, mi, x_.what)
+                continue
+            n += 1
+            if minutes != 60 * h + mi and bad_f is None:
+                bad_f = 'forHourMinute(%d, %d) holds %s minutes, expected %d: forHourMinute is not 60*hour + minute' % (h, mi, minutes, 60 * h + mi)
+                continue
+            box = {'h': 99, 'm': 99}
+            try:
+                call(thm, [Ref(box, 'h'), Ref(box, 'm')], recv=o)
+                sec = call(tsec, [], recv=o)
+            except Raised as x_:
+                bad_h = bad_h or 'toHourMinute raises %s' % x_.what
+                continue
+            tot = 60 * h + mi
+            if (box['h'], box['m']) != (tdiv(tot, 60), tot - 60 * tdiv(tot, 60)) and bad_h is None:
+                bad_h = 'an offset of %d minutes gives toHourMinute = (%s, %s), expected (%d, %d): toHourMinute is not (minutes / 60, minutes %% 60)' % (
+                    tot, box['h'], box['m'], tdiv(tot, 60), tot - 60 * tdiv(tot, 60))
+            if sec != 60 * tot and bad_s is None:
+                bad_s = 'an offset of %d minutes gives toSeconds() = %s: toSeconds is not 60 * minutes' % (tot, sec)
+    for f_, b_ in ((fhm, bad_f), (thm, bad_h), (tsec, bad_s)):
+        R.instance('R2', f_.name, f_.loc, '%d offsets interpreted' % n)
+        if b_:
+            R.violation('R2', f_.name, f_.loc, b_)
+    inc = lib.fn('ace_time::time_offset_mutation::increment15Minutes')
+    fmin = lib.fn('ace_time::TimeOffset::forMinutes')
+    bad = None
+    n = 0
+    for start in list(range(-960, 961, 15)) + [-959, -1, 1, 7, 946, 959]:
+        try:
+            o = call(fmin, [start])
+            call(inc, [o])
+            got = call(tmin, [], recv=o)
+        except Raised as x_:
+            got = 'raises %s' % x_.what
+        n += 1
+        want = start + 15 if start + 15 <= 960 else -960
+        if got != want and bad is None:
+            bad = 'increment15Minutes turns %d minutes into %s, expected %d (a step of 15 that wraps above +16:00 to -16:00)' % (start, got, want)
+    R.instance('R2', inc.name, inc.loc, '%d offsets interpreted' % n)
+    if bad:
+        R.violation('R2', inc.name, inc.loc, bad)
 
 
 def mutation_helpers(R, lib, ob):
